@@ -147,9 +147,17 @@ ORDER = ['C%02d' % i for i in range(1, 19)]
 def main():
     props = [json.loads(l) for l in open(os.path.join(VERIF, 'properties.jsonl'))]
     checks = []
+    import sys
+    sys.path.insert(0, os.path.join(VERIF, 'checks'))
+    import core
     for pid in ORDER:
         if pid in CLAIMS:
-            c = CLAIMS[pid]
+            c = dict(CLAIMS[pid])
+            if pid in core.TIES:
+                mods = ', '.join(core.TIES[pid])
+                c['text'] += (" Source tie (Lemmas/SrcTie: " + mods + "): every per-coefficient comprehension, butterfly, comparison and index expression of the hand-modelled functions this property runs through "
+                              "is translated from the current source on every run (Gen/Exprs) and proved to be what the model computes there - a skeleton equation closed by rfl plus one equality per expression, up to fault-site names.")
+                c['tech'] += " + translated source expressions (comprehensions, butterflies, decoder comparisons) proved equal to the model's (SrcTie)"
             checks.append({
                 'property_id': pid,
                 'quick_cmd': f'python3 checks/run.py {pid} --tier quick',
